@@ -20,7 +20,7 @@ RULE = ("each run: a generated conversation (1..6 exchanges quick, 1..20 thoroug
         "objects compared pairwise; distinct = distinct stream bytes")
 REAL = common.REAL_DECODER + ["tpmstream.common.object (separate_events, events_to_objs, events_to_obj)"]
 ASSUMPTIONS = ["command code and response-encryption flag of each response come from the generator's value tree"]
-TIERS = {"quick": {"runs": 12000, "budget": 150}, "thorough": {"runs": 300000, "budget": 780}}
+TIERS = {"quick": {"runs": 16000, "budget": 150}, "thorough": {"runs": 300000, "budget": 780}}
 
 
 def twin_case(rng, g):
